@@ -103,13 +103,23 @@ def generic(pid, tier, seed, props, build, rule, assumptions):
     import unittest_importer  # noqa: F401
     work = C.build_dir(pid, wipe=True)
     v = C.Verdict(pid)
+    del PARSE_ERRORS[:]
     graphs = build(tier, random.Random(seed), work)
+    for pe in PARSE_ERRORS:
+        if pid == "C06":
+            v.violation("parse-raises %s" % pe["parse_error"], "%s: the parse of a valid generated configuration raised %s" % (pe["label"], pe["detail"][:300]),
+                        {"generated_suite_seed": pe["seed"], "nets": pe["nets"], "declared": pe["declared"], "error": pe["detail"]})
+        else:
+            C.log("generated suite skipped (its parse raised; reported by C06): %s %s" % (pe["label"], pe["parse_error"]))
     r, fails = R.validate(work, graphs)
     for f in fails:
         if f["prop"] not in props:
             continue
         g = graphs[f["graph"]]
-        v.violation("%s" % f["detail"][0], "%s: %s" % (g["label"], str(f["detail"])[:400]), {"graph": g["label"], "failure": f})
+        sig = "%s" % f["detail"][0]
+        if EXTRA_VM_MARK in g["label"] and g.get("lazy"):
+            sig = "lazy-producer-extra-vm " + sig
+        v.violation(sig, "%s: %s" % (g["label"], str(f["detail"])[:400]), {"graph": g["label"], "failure": f, "declared": g.get("declared")})
     rc = v.finish()
     samples = [{"graph": g["label"], "nodes": len(g["nodes"]), "edges": len(g["setup"]), "events": len(g["events"]),
                 "declared_edges": len(g.get("expected", []))} for g in graphs[:6]]
@@ -118,3 +128,142 @@ def generic(pid, tier, seed, props, build, rule, assumptions):
         "graphs": [g["label"] for g in graphs], "parse_events_replayed": sum(len(g["events"]) for g in graphs), "rule": rule},
         assumptions, time.time() - t0, len(v.violations))
     return rc
+
+
+# ---------------------------------------------------------------- generated suites
+
+def gen_restr(suite):
+    groups = sorted({n.split(".")[0] for n in suite.leaves})
+    return ",".join("leaves..%s" % g for g in groups)
+
+
+def check_oracle(suite, edges):
+    """the independent resolver against what the generator declared; a disagreement means the oracle cannot be trusted"""
+    E = set(edges)
+    children = {c for c, _, _ in E}
+    for name, (vms, decl, sets) in suite.leaves.items():
+        tail = "@" + ".".join(vms)
+        cloned = any(d[2] is None for d in decl.values())
+        mes = sorted({c for c in children if c.startswith(name + ".") and c.endswith(tail)}) if cloned else [name + tail]
+        if cloned and len(mes) != 2:
+            raise C.MachineryError("generated suite %s: the resolver gives %d clones of %s" % (suite.root, len(mes), name))
+        for vm, (kind, parent, state) in decl.items():
+            okey = "images_image1_%s" % vm if kind == "images" else "vms_%s" % vm
+            if state:
+                for me in mes:
+                    want = (me, "internal.automated.%s@%s" % (parent, vm), okey)
+                    if want not in E:
+                        raise C.MachineryError("generated suite %s: the resolver misses the declared dependency %s" % (suite.root, want))
+            else:
+                clones = [e for e in E if e[0].startswith(name + ".") and e[0].endswith("@" + ".".join(vms)) and e[2] == okey and e[1].startswith(parent + ".")]
+                if len(clones) != 2:
+                    raise C.MachineryError("generated suite %s: the resolver gives %d clones of %s for the two producers of %s" % (suite.root, len(clones), name, parent))
+    for name, st in suite.setups.items():
+        for vm in ("vm1", "vm2", "vm3"):
+            me = "internal.automated.%s@%s" % (name, vm)
+            if me in children and (me, "internal.automated.%s@%s" % (st["parent"], vm), "images_image1_%s" % vm) not in E:
+                raise C.MachineryError("generated suite %s: the resolver misses the declared parent of %s" % (suite.root, me))
+
+
+def _gen_job(args):
+    seed, root, nets, with_expected = args
+    from . import gensuite as G
+    C.repo_python_setup()
+    import unittest_importer  # noqa: F401
+    suite = G.write(root, random.Random(seed))
+    G.activate(suite)
+    restr = gen_restr(suite)
+    try:
+        g, rec = R.parse_eager(restr, nets)
+    except Exception as ex:  # noqa: a valid generated configuration must parse; reported by C06
+        import re
+        return {"parse_error": "%s: %s" % (type(ex).__name__, re.sub(r"\[(node|object)\][^\[]*", "<\\1> ", str(ex))[:80].strip()), "detail": str(ex)[:1500],
+                "label": "generated suite seed %d on %s" % (seed, nets), "declared": suite.text, "seed": seed, "nets": nets}
+    snap = S.snapshot(g, rec)
+    snap["unexpanded"] = []
+    snap["label"] = "generated suite seed %d (%d setup tests, %d product tests) eager on %s" % (seed, len(suite.setups), len(suite.leaves), nets)
+    snap["declared"] = suite.text
+    if with_expected:
+        r = S.Resolver(suite.root, R.VM_VARIANT)
+        seen, edges = set(), set()
+        for name, (vms, decl, sets) in sorted(suite.leaves.items()):
+            r.resolve("leaves." + name, vms, seen, edges)
+        check_oracle(suite, edges)
+        snap["expected"] = [list(e) for e in sorted(edges)]
+        snap["hasexpected"] = True
+    return snap
+
+
+def gen_graphs(rng, n, work, with_expected=False):
+    """eager parses of n generated suites (random setup DAGs on the shipped base), 1-3 workers"""
+    from ..props.c15 import fork_map
+    import os
+    items = [(rng.randrange(1 << 30), os.path.join(work, "gen", "s%d" % i), rng.choice(["net1", "net1 net2", "net1 net2", "net1 net2 net3"]), with_expected)
+             for i in range(n)]
+    out = []
+    for it, snap in zip(items, fork_map(_gen_job, items)):
+        if "harness_error" in snap:
+            raise C.MachineryError("generated suite seed %d failed in the harness: %s" % (it[0], snap["harness_error"][-800:]))
+        if "parse_error" in snap:
+            PARSE_ERRORS.append(snap)
+            continue
+        out.append(snap)
+    return out
+
+
+PARSE_ERRORS = []      # generated (valid) configurations whose parse raised: a C06 violation, skipped by the other checks
+
+
+EXTRA_VM_MARK = "producer with a vm its dependant does not use"
+
+
+def gen_lazy_graphs(rng, n, seeds_per, work, fixed=None):
+    """for n generated suites: the eager class edges as reference, then real lazy traversals whose final graph must equal it.
+    The random suites keep the vms of a multi-producer group within those of its dependants (as the shipped suite does);
+    fixed = gensuite.EXTRA_VM_PRODUCER is the one handcrafted suite without that restriction."""
+    from ..sched import pool as P
+    from . import gensuite as G
+    import os
+    out = []
+    for i in range(n):
+        seed = rng.randrange(1 << 30)
+        tag = "f" if fixed else "s"
+        suite = G.write(os.path.join(work, "genlazy", "%s%d" % (tag, i)), random.Random(seed), fixed=fixed, **({} if fixed else {"subset_producers": True}))
+        restr, nets = gen_restr(suite), rng.choice(["net1 net2", "net1 net2 net3"])
+        with G.active(suite):
+            try:
+                g, rec0 = R.parse_eager(restr, nets)
+            except Exception as ex:  # noqa
+                import re
+                PARSE_ERRORS.append({"parse_error": "%s: %s" % (type(ex).__name__, re.sub(r"\[(node|object)\][^\[]*", "<\\1> ", str(ex))[:80].strip()),
+                                     "detail": str(ex)[:1500], "label": "generated suite seed %d on %s" % (seed, nets), "declared": suite.text, "seed": seed, "nets": nets})
+                continue
+            first = S.snapshot(g, rec0)
+        first["unexpanded"] = []
+        first["declared"] = suite.text
+        mark = " (%s)" % EXTRA_VM_MARK if fixed else ""
+        first["label"] = "generated suite seed %d eager on %s%s" % (seed, nets, mark)
+        out.append(first)
+        ref = S.class_edges(first)
+        rec = S.ParseRecorder()
+        rec.install()
+        try:
+            inst = P.Instance("genlazy%s%d" % (tag, i), restr, nets, {"test_timeout": 100}, lazy=True, suite=suite)
+            inst.prepare()
+            inst.parse_rec = rec
+            jobs = [{"sched": {"seed": rng.randrange(1 << 30), "statuses": ["PASS", "FAIL"], "weights": [6, 1]}, "store": {}, "snapshot": True, "cap": 20000}
+                    for _ in range(seeds_per)]
+            res = P.run_jobs(inst, jobs, work + "/genlazy_jobs%s%d" % (tag, i))
+        finally:
+            rec.uninstall()
+        for r in res:
+            if "snapshot" in r and r["outcome"] == "done":
+                sn = r["snapshot"]
+                sn["label"] = "generated suite seed %d lazy after traversal seed %s%s" % (seed, r["job"]["sched"]["seed"], mark)
+                sn["eventscomplete"] = True
+                sn["lazy"] = True
+                sn["excluded"] = list(getattr(inst, "incompatible", []))
+                sn["reference"] = [list(e) for e in ref]
+                sn["hasreference"] = True
+                out.append(sn)
+    return out
